@@ -66,6 +66,10 @@ def _build(template, t):
         return [t[0], (t[1],), {"x": t[1], "y": [t[2]]}], 3
     if template == "bare":
         return t[0], 1
+    if template == "opaque_leaves":
+        # mutable non-tensor content the traversal does not descend into: a list inside a tuple, a set, a bytearray, an ndarray
+        import numpy as np
+        return [t[0], ([1, 2], "x"), {"s": {1, 2}, "ba": bytearray(b"ab"), "t": t[1]}, Obj(arr=np.arange(3), z=t[2])], 3
     raise KeyError(template)
 
 
@@ -103,6 +107,53 @@ def _shape_of(b):
     return ("leaf", repr(b))
 
 
+def _opaque_mutables(b, acc, inside_tuple=False):
+    """mutable non-tensor objects at any depth, including those behind tuples (which the Packer treats as leaves)"""
+    import numpy as np
+    if isinstance(b, torch.Tensor):
+        return acc
+    if isinstance(b, (set, bytearray, np.ndarray)):
+        acc.append(b)
+    elif isinstance(b, tuple):
+        for e in b:
+            _opaque_mutables(e, acc, True)
+    elif isinstance(b, list):
+        if inside_tuple:
+            acc.append(b)
+        for e in b:
+            _opaque_mutables(e, acc, inside_tuple)
+    elif isinstance(b, dict):
+        if inside_tuple:
+            acc.append(b)
+        for e in b.values():
+            _opaque_mutables(e, acc, inside_tuple)
+    elif hasattr(b, "__dict__"):
+        for e in b.__dict__.values():
+            _opaque_mutables(e, acc, inside_tuple)
+    return acc
+
+
+def _same_value(a, b):
+    import numpy as np
+    if isinstance(a, np.ndarray):
+        return isinstance(b, np.ndarray) and a.shape == b.shape and bool((a == b).all())
+    return type(a) is type(b) and a == b
+
+
+def _mutate(x):
+    import numpy as np
+    if isinstance(x, set):
+        x.add(99)
+    elif isinstance(x, bytearray):
+        x.extend(b"!")
+    elif isinstance(x, np.ndarray):
+        x += 7
+    elif isinstance(x, list):
+        x.append(99)
+    elif isinstance(x, dict):
+        x["__new__"] = 99
+
+
 def _mutable_leaves(b, acc):
     if isinstance(b, list):
         if all(not isinstance(e, (torch.Tensor, list, dict)) and not hasattr(e, "__dict__") for e in b) and b:
@@ -118,7 +169,7 @@ def _mutable_leaves(b, acc):
     return acc
 
 
-TEMPLATES = ["list", "dict", "object", "list_in_dict", "object_in_list", "tuple_leaf", "bare"]
+TEMPLATES = ["list", "dict", "object", "list_in_dict", "object_in_list", "tuple_leaf", "bare", "opaque_leaves"]
 HISTORIES = ["unique_list", "unique_flat", "nonunique_list", "nonunique_flat", "repeat", "construct_first"]
 
 
@@ -199,6 +250,10 @@ def packer(cx, template="list"):
     # non-tensor content is copied, not shared
     lo, lr = _mutable_leaves(obj, []), _mutable_leaves(rebuilt, [])
     cx.claim_true("mutable non-tensor leaves are equal copies", len(lo) == len(lr) and all(a == b and a is not b for a, b in zip(lo, lr)))
+    oo, orr = _opaque_mutables(obj, []), _opaque_mutables(rebuilt, [])
+    cx.claim_true("mutable content behind tuples / sets / arrays is copied too (equal, not shared)",
+                  len(oo) == len(orr) and all(_same_value(a, b) and a is not b for a, b in zip(oo, orr)),
+                  detail="%d vs %d objects" % (len(oo), len(orr)))
     if isinstance(rebuilt, (list, dict)) or hasattr(rebuilt, "__dict__") and not isinstance(rebuilt, torch.Tensor):
         cx.claim_true("containers are new objects", rebuilt is not obj)
     if hist == "repeat":
@@ -208,6 +263,19 @@ def packer(cx, template="list"):
         rs2 = _slots(rebuilt2)
         if not isinstance(rebuilt, torch.Tensor):
             cx.claim_true("a second reconstruction returns a new object", rebuilt2 is not rebuilt)
+        # history: edit the non-tensor content of the first result in place, rebuild again: the edit is neither in the
+        # caller's object nor in the next result
+        import copy as _copy
+        before = _copy.deepcopy(_opaque_mutables(obj, []) + _mutable_leaves(obj, []))
+        for x in _opaque_mutables(rebuilt, []) + _mutable_leaves(rebuilt, []):
+            _mutate(x)
+        rebuilt3 = pk.construct_from_tensor_list([torch.zeros_like(t) + 300 + k for k, t in enumerate(lst)], unique=True)
+        after_o = _opaque_mutables(obj, []) + _mutable_leaves(obj, [])
+        after_3 = _opaque_mutables(rebuilt3, []) + _mutable_leaves(rebuilt3, [])
+        cx.claim_true("editing a result in place leaves the caller's object and later results untouched",
+                      len(before) == len(after_o) == len(after_3)
+                      and all(_same_value(a, b) for a, b in zip(before, after_o))
+                      and all(_same_value(a, b) for a, b in zip(before, after_3)))
         cx.claim_true("the first reconstruction is not overwritten by the second",
                       all(bool((t >= 100).all() and (t < 200).all()) for t in rs1) and all(bool((t >= 200).all()) for t in rs2))
     # wrong lengths / shapes are rejected
